@@ -43,7 +43,7 @@ def _run(module, cfg, workers, env, timeout, coverage, simulate, depth, seed,
          extra, jvm, deadlock, spec_dir):
     spec_dir = spec_dir or SPEC_DIR
     meta = tempfile.mkdtemp(prefix='verif-tlc-')
-    cmd = ['java', '-XX:+UseParallelGC', '-Xmx6g'] + list(jvm) + [
+    cmd = ['java', '-XX:+UseParallelGC', '-Xmx6g', '-Xss64m'] + list(jvm) + [
         '-cp', JAR + ':' + DEPS, 'tlc2.TLC',
         '-metadir', meta, '-noGenerateSpecTE']
     if workers is None:
